@@ -10,6 +10,27 @@ def textErrName : TErr → String
   | .assertion => "AssertionError" | .type_ => "TypeError" | .index => "IndexError"
   | .runtime => "RuntimeError" | .unsupported => "unsupported"
 
+def textKindOfStr (s : String) : Option FieldKind :=
+  if s == "reg" then some .reg else if s == "imm8" then some .imm8 else if s == "int32" then some .int32
+  else if s == "addr" then some .addr else if s == "entry" then some .entry
+  else if s == "slice" then some .slice else none
+
+/-- a flavour table given in the request (`rows`: [[class, opcode, mnemonic, [kinds]], …], core
+rows first, flavour-specific rows after, as `Flavour.__init__` inserts them) or a stock one (`fl`) -/
+def textTableOfReq (j : Json) : Option Table :=
+  match jField? j "rows" with
+  | some rs => do
+    let rs ← jArr? rs
+    rs.toList.mapM fun r => do
+      let a ← jArr? r
+      match a.toList with
+      | [c, o, m, ks] => do
+        let ks ← jArr? ks
+        let ks ← ks.toList.mapM (fun k => (jStr? k).bind textKindOfStr)
+        pure (⟨← jStr? c, ← jNat? o, ← jStr? m, ks⟩ : Row)
+      | _ => none
+  | none => (jField? j "fl").bind jStr? |>.bind tableOf
+
 def textUpdOfJson (j : Json) : Option IUpd := do
   let u ← (jField? j "u").bind jStr?
   if u == "obs" then pure .observe
@@ -21,7 +42,7 @@ def textUpdOfJson (j : Json) : Option IUpd := do
 
 def handleText (op : String) (j : Json) : Option Json :=
   if op == "text.print" then do
-    let T ← (jField? j "fl").bind jStr? |>.bind tableOf
+    let T ← textTableOfReq j
     let i ← (jField? j "i").bind instrOfJson
     match rowOf T i.cls with
     | some row => pure (Json.mkObj [("s", Json.str (String.ofList (showInstr Gen.syms row.mn i.ops)))])
@@ -33,8 +54,24 @@ def handleText (op : String) (j : Json) : Option Json :=
     let us ← us.toList.mapM textUpdOfJson
     let i' := applyIUpds i us
     pure (Json.mkObj [("i", instrToJson i'), ("s", Json.str (String.ofList (showLine T Gen.syms i')))])
+  else if op == "text.tbt" then do
+    -- text -> instructions -> bytes -> instructions -> text over the table of the request
+    let T ← textTableOfReq j
+    let ls ← (jField? j "lines").bind jArr?
+    let ls ← ls.toList.mapM jStr?
+    match parseText T Gen.syms Gen.genericNames Gen.replaceExceptions (ls.map String.toList) with
+    | .error e => pure (Json.mkObj [("err", Json.str (textErrName e))])
+    | .ok is =>
+      match encodeSub T ⟨0, 0, 0, is⟩ with
+      | none => pure (Json.mkObj [("is", Json.arr (is.map instrToJson).toArray), ("lines2", Json.null)])
+      | some bs =>
+        match decodeSub T bs with
+        | none => pure (Json.mkObj [("is", Json.arr (is.map instrToJson).toArray), ("lines2", Json.null)])
+        | some s' => pure (Json.mkObj [("is", Json.arr (is.map instrToJson).toArray),
+            ("is2", Json.arr (s'.instrs.map instrToJson).toArray),
+            ("lines2", Json.arr (s'.instrs.map (fun i => Json.str (String.ofList (showLine T Gen.syms i)))).toArray)])
   else if op == "text.parse" then do
-    let T ← (jField? j "fl").bind jStr? |>.bind tableOf
+    let T ← textTableOfReq j
     let ls ← (jField? j "lines").bind jArr?
     let ls ← ls.toList.mapM jStr?
     match parseText T Gen.syms Gen.genericNames Gen.replaceExceptions (ls.map String.toList) with
